@@ -83,6 +83,7 @@ def run(rep, tier):
         strlen_rule(rep, c, sfx)
         narrow(rep, c, sfx)
         popalways(rep, c, sfx)
+        sliceguard(rep, c, sfx)
         if cfg != "nomemchr":
             skiparms(rep, c, sfx)
         else:
@@ -1238,6 +1239,48 @@ def popalways(rep, c, sfx):
                     "documented, and later POP / PEEK / DROP see different content")
     if n == 0:
         r.lost("paths of stack_pop")
+
+
+def sliceguard(rep, c, sfx):
+    r = rep.rule("C03.SLICEGUARD" + sfx, 1,
+                 "a slice of the stack taken with a range whose bounds were only checked one by one (`PEEK[a..b]` with "
+                 "negative indices resolved against the current depth) is taken under a test that orders the two bounds: "
+                 "`stack[range]` with end < start panics, while the documented meaning of a reversed slice is the empty one")
+    n = 0
+    for b in c.bodies:
+        if b.get("impl_self") != PS or b.get("body") is None or b.get("exp"):
+            continue
+        ctx = hirq.Ctx(b)
+        for x in walk(b["body"]):
+            if kind(x) != "Index":
+                continue
+            base = peel(x["base"])
+            if not (kind(base) == "Field" and base["name"] == "stack"):
+                continue
+            idx = peel(x["idx"])
+            if not (kind(idx) == "Path" and idx.get("res") == "local" and "Range<" in str(idx.get("ty", ""))):
+                continue
+            n += 1
+            key = "%s:stack[%s]" % (b["name"], idx["name"])
+            r.instance(key, where(x))
+            ordered = False
+            for g in ctx.guards(x):
+                if g[0] not in ("if", "not", "guard"):
+                    continue
+                for y in walk(g[1]):
+                    if kind(y) == "Binary" and y["op"] in ("<", "<=", ">", ">="):
+                        sides = [peel(y["l"]), peel(y["r"])]
+                        names = sorted(s["name"] for s in sides if kind(s) == "Field" and hirq.local_id(s["base"]) == idx["id"])
+                        if names == ["end", "start"]:
+                            ordered = True
+            if not ordered:
+                r.violation(key, where(x),
+                            "ParserState::%s indexes the stack with `%s` without having compared its end with its start: a "
+                            "reversed range (PEEK[-1..1] on a stack of three) panics instead of matching the empty slice"
+                            % (b["name"], idx["name"]))
+    if n == 0:
+        r.note("no range-indexed slice of the stack")
+        r.floor = 0
 
 
 def narrowing_char_casts(body):
